@@ -36,6 +36,8 @@ def decide(ob, rec):
     case, built = CURRENT.get("case"), CURRENT.get("built")
     if case is not None and built is not None and built.net is CURRENT.get("net_of_last_step"):
         O.apply_declared(ob, case["desc"], built, rec)
+        if case["desc"].get("user_engine_laws"):  # the laws of the user-defined engine the driver is stepping with
+            ob.desc["user_engine_laws"] = case["desc"]["user_engine_laws"]
     if not O.admissible(ob):
         rec.count("skipped_inadmissible_values")
         return
@@ -99,6 +101,7 @@ def run(M, rec, tier, seed, k, n):
             W.shared_object_networks(M, rec, rng, 40, before_case=on_case, engine_kinds=("numpy", "numpy", "SX", "MX"), symvals=symvals)
             W.late_registered_ramp_kinds(M, rec, rng, 12, before_case=on_case, engine_kinds=("numpy", "SX", "numpy", "MX"), symvals=symvals)
             W.user_node_rules(M, rec, rng, 36, before_case=on_case, engine_kinds=("numpy", "SX", "numpy", "MX"), symvals=symvals)
+            W.user_engine_laws(M, rec, rng, 32, before_case=on_case, symvals=symvals)
         else:
             W.numpy_steps(M, rec, rng, 6000, draws=3, opts_prob=0.15, before_case=on_case)
             W.symbolic_steps(M, rec, rng, symvals, 420, points=3, opts_prob=0.15, before_case=on_case)
@@ -113,6 +116,7 @@ def run(M, rec, tier, seed, k, n):
             W.shared_object_networks(M, rec, rng, 300, before_case=on_case, engine_kinds=("numpy", "numpy", "SX", "MX"), symvals=symvals)
             W.late_registered_ramp_kinds(M, rec, rng, 60, before_case=on_case, engine_kinds=("numpy", "SX", "numpy", "MX"), symvals=symvals)
             W.user_node_rules(M, rec, rng, 300, before_case=on_case, engine_kinds=("numpy", "SX", "numpy", "MX"), symvals=symvals)
+            W.user_engine_laws(M, rec, rng, 300, before_case=on_case, symvals=symvals)
     finally:
         W.USER_KINDS["prob"] = 0.0
         mon.uninstall()
